@@ -4,7 +4,8 @@ From V.C14 Require Model Proofs.
 From V.C15 Require Model Engine.
 From V.C17 Require Model Proofs Timed Ingress.
 From V.gen Require C16Tables.
-From V.C16 Require Import Model Proofs Obl Bound Chan Exec Time Compose Comp EngineRef HandleModel Handle.
+From V.Ts Require Model Proofs Answers.
+From V.C16 Require Import Model Proofs Obl Bound Chan Exec Time Compose Comp CompTime EngineRef HandleModel Handle Quorum Link.
 Import ListNotations.
 Open Scope N_scope.
 From V.C16 Require Import Properties.
@@ -398,6 +399,79 @@ Check (C16_tables_in_sync :
       (filter (fun r : String.string * list String.string * list String.string * list String.string =>
                  match snd r with [] => false | _ => true end) V.gen.C16Tables.loop_cmds) =
     GETRECORD_ROW).
+Check (C16_quorum_variants :
+  forall wc w q,
+  (forall qr rk len e t,
+     quorum_of_ev q (fst (fst (elab wc w (UCmd q (UCPut qr rk len e) t)))) = Some qr) /\
+  (forall qr rk t,
+     quorum_of_ev q (fst (fst (elab wc w (UCmd q (UCProv qr rk) t)))) = Some qr) /\
+  (forall qr rk len pb e upd given,
+     quorum_of_ev q (fst (fst (elab wc w (UPutToPeers q qr rk len pb e upd given)))) = Some qr) /\
+  (forall rk wait t ks' qc,
+     fire1 wc (age (w_ks w) wait) rk (lrank wc t) = Some (ks', Some qc) ->
+     quorum_of_ev q (fst (fst (elab wc w (UFire q rk wait t)))) = Some (qdecode qc))).
+Check (C16_quorum_clamp :
+  (forall h len,
+     1 <= clamp (q_of h) len /\
+     match h with
+     | HOne => clamp (q_of h) len = 1
+     | HAll => clamp (q_of h) len = N.max len 1
+     | HN n => (Npos n <= len -> clamp (q_of h) len = Npos n) /\
+               (1 <= len -> len <= Npos n -> clamp (q_of h) len = len) /\
+               (len = 0 -> clamp (q_of h) len = 1)
+     end) /\
+  (forall h, q_of h <> QN 0) /\ (forall c, qdecode c <> QN 0)).
+Check (C16_success_needs_a_send :
+  forall g m es q,
+  fresh_ids [] es -> cmds_ok g es ->
+  (forall qr, find_quorum q es = Some qr -> qr <> QN 0) ->
+  let outs := snd (run g (st0 m) es) in
+  In (OPutSuccess q) outs \/ In (OProvSuccess q) outs ->
+  exists targets p, In (OTrack q targets) outs /\ In p targets /\ In (q, p) (put_sends g (st0 m) es)).
+Check (C16_handle_quorum_honest :
+  forall wc m cap ops q,
+  keys_ok wc -> ops_ok (wc_g wc) ops ->
+  let us := snd (fst (hrun (h0 cap) ops)) in
+  let W0 := w0 wc m (length (lkey wc)) in
+  let outs := snd (crun wc W0 us) in
+  let es := elabs wc W0 us in
+  In (OPutSuccess q) outs \/ In (OProvSuccess q) outs ->
+  exists targets qr S,
+    find_quorum q es = Some qr /\ qr <> QN 0 /\ In (OTrack q targets) outs /\ NoDup S /\
+    clamp qr (N.of_nat (length targets)) <= N.of_nat (length S) /\ (1 <= length S)%nat /\
+    (forall p, In p S -> In (q, p) (put_sends (wc_g wc) (st0 m) es) /\ In p targets)).
+Check (C16_compose_bounded_time :
+  forall wc m D us0 ua u ub,
+  1 <= g_alpha (wc_g wc) ->
+  let W0 := w0 wc m (length (lkey wc)) in
+  let w1 := fst (crun wc W0 us0) in
+  let es1 := elabs wc w1 (ua ++ u :: ub) in
+  is_tick (fst (fst (elab wc (fst (crun wc w1 ua)) u))) = false ->
+  fair_run (wc_g wc) (w_st w1) es1 ->
+  timed D (wc_g wc) (w_st w1) (restamp (now (w_st w1)) [] (okeys (w_st w1))) es1 ->
+  now (w_st (fst (crun wc w1 ua))) <= now (w_st w1) + D * N.of_nat (S (length (work (elabs wc w1 ua))))).
+Check (C16_compose_bounded_time_budget :
+  forall wc m D U us0 ua u ub,
+  keys_ok wc -> 1 <= g_alpha (wc_g wc) ->
+  (forall p, In p (UNKNOWN :: map fst (wc_keys wc)) -> In p U) ->
+  ufresh [] (us0 ++ ua ++ u :: ub) -> Forall (ucmd_ok (wc_g wc)) us0 -> Forall (uev_in_U U) (us0 ++ ua ++ u :: ub) ->
+  let W0 := w0 wc m (length (lkey wc)) in
+  let w1 := fst (crun wc W0 us0) in
+  let es1 := elabs wc w1 (ua ++ u :: ub) in
+  is_tick (fst (fst (elab wc (fst (crun wc w1 ua)) u))) = false ->
+  fair_run (wc_g wc) (w_st w1) es1 ->
+  timed D (wc_g wc) (w_st w1) (restamp (now (w_st w1)) [] (okeys (w_st w1))) es1 ->
+  now (w_st (fst (crun wc w1 ua))) <= now (w_st w1) + D * N.of_nat (budget (length U) (wc_g wc) (elabs wc W0 us0))).
+Check (C16_link_service_feasible :
+  (forall ka T n0 tr,
+     V.Ts.Proofs.nowrap (V.Ts.Model.init ka T n0) tr -> feasible_along (V.Ts.Model.init ka T n0) [] tr) /\
+  (forall m os s16 p id,
+     step_feasible m os -> psub s16 = m -> In (V.Ts.Model.OSub p (Some id)) os -> feasible s16 (EOpened p id))).
+Check (C16_link_dial_answers :
+  forall s p a acts,
+  aget p (pdial s) = Some (a :: acts) ->
+  productive s (EDialFail p) /\
+  (aget p (conn s) = None -> aget p (peers s) = None -> forall alive, productive s (EEstablished p alive))).
 Check (C16_default_config :
   1 <= V.gen.Consts.PARALLELISM_FACTOR /\ 0 < V.gen.Consts.KAD_READ_TIMEOUT_SECS /\
   0 < V.gen.Consts.KAD_WRITE_TIMEOUT_SECS).
